@@ -8,6 +8,7 @@ from __future__ import annotations
 
 import sys
 import time
+import zlib
 
 import z3
 
@@ -441,11 +442,71 @@ class Result:
         self.notes = []
         self.coverage_checked = None
         self.skipped = None  # reason when the harness declared the shape outside the model
+        self.rechecked = 0  # final validity queries re-decided by a second solver (cvc5)
+        self.recheck_agree = 0
+        self.recheck_unknown = 0
+        self.recheck_s = 0.0
 
     def as_dict(self):
         d = dict(self.__dict__)
         d["functions"] = sorted(self.functions)
         return d
+
+
+_RECHECK_RATE = int(os.environ.get("VERIF_RECHECK_RATE", "0") or 0)
+RECHECK = {"second-solver (cvc5) re-decided": 0, "second-solver agrees (unsat)": 0, "second-solver unknown/error (no weight)": 0}
+
+
+def second_solver(smt2, timeout_ms=20000):
+    """Decide an SMT-LIB2 dump (z3's to_smt2) with the cvc5 wheel; returns "sat" / "unsat" / "unknown" / "error: ..."."""
+    try:
+        import cvc5
+    except ImportError:
+        return "unavailable"
+    try:
+        slv = cvc5.Solver()
+        slv.setOption("tlimit-per", str(timeout_ms))
+        slv.setLogic("ALL")
+        ip = cvc5.InputParser(slv)
+        ip.setStringInput(cvc5.InputLanguage.SMT_LIB_2_6, smt2, "vc")
+        sm = ip.getSymbolManager()
+        verdict = "unknown"
+        while True:
+            cmd = ip.nextCommand()
+            if cmd.isNull():
+                break
+            out = str(cmd.invoke(slv, sm)).strip()
+            if out in ("sat", "unsat", "unknown"):
+                verdict = out
+            elif "error" in out.lower():
+                return "error: " + out[:200]
+        return verdict
+    except Exception as e:  # noqa: BLE001 - an unusable second opinion is no opinion
+        return f"error: {type(e).__name__}: {e}"[:200]
+
+
+def _recheck(ctx, negated, res, label):
+    """Second opinion on a validity query z3 answered `unsat`: a deterministic sample (1 in VERIF_RECHECK_RATE, chosen by a hash
+    of label, path number and obligation number) is dumped with Solver.to_smt2() and re-decided by cvc5.  `sat` there is a harness error (the two solvers
+    disagree about the encoding), `unknown` / errors are counted and carry no weight."""
+    if zlib.crc32(f"{label}|{res.paths}|{res.obligations}".encode()) % _RECHECK_RATE:
+        return
+    s2 = z3.Solver()
+    s2.add(ctx.solver.assertions())
+    s2.add(negated)
+    txt = s2.to_smt2()
+    t = time.time()
+    v = second_solver(txt)
+    res.recheck_s += time.time() - t
+    res.rechecked += 1
+    RECHECK["second-solver (cvc5) re-decided"] += 1
+    RECHECK["second-solver agrees (unsat)" if v == "unsat" else "second-solver unknown/error (no weight)"] += (v != "sat")
+    if v == "unsat":
+        res.recheck_agree += 1
+    elif v == "sat":
+        raise HarnessError(f"second solver (cvc5) finds a model for a query z3 answered unsat: {label}")
+    else:
+        res.recheck_unknown += 1
 
 
 class Skip(BaseException):
@@ -525,6 +586,8 @@ def explore(fn, max_paths=4000, timeout_ms=30000, max_cex=3, wall_s=600, coverag
                 r = ctx.check(z3.Not(c))
                 if r == z3.unsat:
                     res.discharged += 1
+                    if _RECHECK_RATE:
+                        _recheck(ctx, z3.Not(c), res, label)
                 elif r == z3.sat:
                     if len(res.cex) < max_cex:
                         m = ctx.solver.model()
